@@ -346,7 +346,8 @@ class UnionT(AdtT):
 
     def tag_of_type(self, ty):
         for tag, t in self.alts.items():
-            if t is ty or (t is None and ty is NONE):
+            # python's None is the nullary alternative called `none`; other nullary alternatives are sentinels of their own
+            if t is ty or (t is None and ty is NONE and tag == "none") or (t is NONE and ty is NONE):
                 return tag
         return None
 
